@@ -22,11 +22,15 @@ impl Flounder {
     pub fn uci_loop(&mut self) {
         loop {
             let mut command = String::new();
-            if std::io::stdin().read_line(&mut command).is_ok() {
-                command = command.trim().to_string();
-                if !command.is_empty() {
-                    self.handle_command(&command);
+            match std::io::stdin().read_line(&mut command) {
+                Ok(0) => break, // end of input
+                Ok(_) => {
+                    command = command.trim().to_string();
+                    if !command.is_empty() {
+                        self.handle_command(&command);
+                    }
                 }
+                Err(_) => {}
             }
         }
     }
